@@ -23,6 +23,11 @@ AlphabetOf(t) ==
   \cup { Op("GetAt", t, i, 0) : i \in { 0, WLo - 1 } }
   \cup { Op("Set", t, 1, 8), Op("Get", t, 1, 0), Op("PtrSet", t, 0, 6) }
   \cup { Op("SAdd", t, 1, 0), Op("SSub", t, 1, 0), Op("SMul", t, 2, 0), Op("SDiv", t, 2, 0), Op("Sapyb", t, 2, 3) }
+  \* several operands, one position at a time with an incompatible range (a = position, b = variant)
+  \cup { Op("XapybM", t, 0, 0), Op("XapybM", t, 1, 2), Op("XapybM", t, 2, 3), Op("XapybM", t, 3, 1), Op("XapybM", t, 4, 2) }
+  \cup { Op("XapybSM", t, 0, 0), Op("XapybSM", t, 1, 3), Op("XapybSM", t, 2, 2) }
+  \cup { Op("SapybM", t, 1, 4), Op("SapybM", t, 2, 1), Op("SapybM", t, 3, 2) }
+  \cup { Op("VOpM", t, 0, 2), Op("VOpM", t, 2, 1), Op("VOpM", t, 1, 3), Op("BOpM", t, 0, 4), Op("BOpM", t, 3, 2) }
 ReducedOf(t) ==
      { Op(k, t, 0, 0) : k \in {"Assign", "Move"} }
   \cup { Op("Construct", t, r[1], r[2]) : r \in { << WLo, WLo + 1 >>, << 0, WHi >>, << WLo, WHi >> } }
